@@ -43,27 +43,8 @@ def edited_program(draw):
     return text
 
 
-# comments that tools (type checkers, linters, the tokenizer's coding cookie) give a meaning to: CPython's parser itself ignores them
-COMMENTS = ['# type: int', '# type: ignore', '# type: ignore[attr-defined]', '# type: (int) -> int', '#type:x', '# type:', '# type: List[str]', '# noqa', '# fmt: off',
-            '# pragma: no cover', '# -*- coding: utf-8 -*-', '# -*- coding: latin-1 -*-', '# vim: set fileencoding=no_such_codec :', '#!/usr/bin/env python3',
-            '# TODO', '#', '# type: greeting', '# coding=ascii é']
-
-
-@st.composite
-def commented_program(draw):
-    lines = draw(G.any_valid_program(stdlib=False)).split('\n')
-    for _ in range(draw(st.integers(1, 3))):
-        i = draw(st.integers(0, len(lines) - 1))
-        c = draw(st.sampled_from(COMMENTS))
-        how = draw(st.integers(0, 2))
-        if how == 0:
-            lines[i] = lines[i] + '  ' + c
-        elif how == 1:
-            indent = lines[i][:len(lines[i]) - len(lines[i].lstrip())]
-            lines.insert(i, indent + c)
-        else:
-            lines.insert(i, c)
-    return '\n'.join(lines)
+COMMENTS = G.COMMENTS
+commented_program = G.commented_program
 
 
 _TEXT = st.text(st.characters(exclude_categories=['Cs']), max_size=60)
@@ -84,7 +65,8 @@ def texts(tier):
     base = st.one_of(G.any_valid_program(stdlib=False), edited_program(), edited_program(), commented_program(), _TEXT, _BLANK, _LINEY, _LINEY.map(lambda t: t + '\n'),
                      _TABMIX)
     prev = st.one_of(st.none(), st.none(), st.sampled_from(['a = 1\nb = 2\nc = a + b\nprint(c)\n', 'x = (\n', '', 'def f():\n    return 1\nf()\nf()\n']))
-    return st.fixed_dictionaries({'text': base, 'offset': st.sampled_from([0, 0, 1, 2, 5]), 'prev': prev, 'exotic': st.sampled_from([0, 0, 1, 2, 3])})
+    return st.fixed_dictionaries({'text': base, 'offset': st.sampled_from([0, 0, 1, 2, 5]), 'prev': prev, 'exotic': st.sampled_from([0, 0, 1, 2, 3])},
+                                 optional={'explicit': st.booleans()})
 
 
 STRATEGIES = {'texts': texts}
@@ -111,6 +93,7 @@ def judge(case):
     if kind == 'other':
         return Result([], False, ['skipped-parser-limit'], ambiguous=1)
     viol, classes = [], ['section' if k else 'whole-file']
+    explicit = False
     MAIN_REPORT.full_clear()
     try:
         if k:
@@ -134,7 +117,11 @@ def judge(case):
             MAIN_REPORT.ignored_feedback.clear()
             classes.append('after-previous-verify')
             shifted_kind, shifted = kind, ref
-            MAIN_REPORT.submission.replace_main(text)
+            if case.get('explicit'):
+                explicit = True
+                classes.append('explicit-code-argument')     # verify(text) while the submission still holds the earlier program
+            else:
+                MAIN_REPORT.submission.replace_main(text)
         else:
             contextualize_report(text)
             shifted_kind, shifted = kind, ref
@@ -142,7 +129,7 @@ def judge(case):
         MAIN_REPORT.full_clear()
         return Result([V('C12|setup-raises:%s' % type(e).__name__, 'sectioning raised %r for text %r' % (e, text[:200]))], True, classes)
     try:
-        ok = verify()
+        ok = verify(text) if explicit else verify()
     except Exception as e:
         import traceback
         tb = traceback.extract_tb(e.__traceback__)[-1]
